@@ -232,6 +232,40 @@ static void cs_probe_l3(void) {
 	tr_printf("P3code %d\n", err_get_code() != RLC_OK);
 }
 
+/* binary field alone (after a field-only selection FBSET): multiplication, inversion, square root, trace, half-trace
+ * solution on elements with bits set all over the width */
+static void cs_probe_l4(void) {
+	fb_t a, b, c;
+	uint8_t buf[RLC_FB_BYTES];
+	fb_null(a); fb_null(b); fb_null(c);
+	RLC_TRY {
+		fb_new(a); fb_new(b); fb_new(c);
+		{ int ra_, rb_, rc_; fb_poly_get_rdc(&ra_, &rb_, &rc_); tr_printf("P4 rdc=%d,%d,%d", ra_, rb_, rc_); }
+		fb_zero(a);
+		for (int i = 0; i < RLC_FB_BITS; i += 3) fb_set_bit(a, i, 1);
+		fb_set_bit(a, RLC_FB_BITS - 1, 1);
+		fb_mul(b, a, a); fb_add_dig(b, b, 5);
+		fb_inv(c, b);
+		fb_write_bin(buf, RLC_FB_BYTES, c); tr_str(" inv="); tr_hex(buf, RLC_FB_BYTES);
+		fb_srt(c, b);
+		fb_write_bin(buf, RLC_FB_BYTES, c); tr_str(" srt="); tr_hex(buf, RLC_FB_BYTES);
+		tr_printf(" trc=%d%d", (int)fb_trc(a), (int)fb_trc(b));
+		/* z^2 + z = w has a solution iff the trace of w is zero */
+		fb_copy(c, b);
+		if (fb_trc(c) != 0) fb_add_dig(c, c, 1);
+		if (fb_trc(c) == 0) {
+			fb_slv(c, c);
+			fb_write_bin(buf, RLC_FB_BYTES, c); tr_str(" slv="); tr_hex(buf, RLC_FB_BYTES);
+		}
+		tr_str("\n");
+	} RLC_CATCH_ANY {
+		tr_str(" THROWN\n");
+	} RLC_FINALLY {
+		fb_free(a); fb_free(b); fb_free(c);
+	}
+	tr_printf("P4code %d\n", err_get_code() != RLC_OK);
+}
+
 /* Runs one step line "<item> [args]"; the items never keep pointers across steps. */
 static void cs_step_(char **tok, int n);
 /* Every step is a complete top-level use of the library: whatever protected blocks it entered have been left when it
@@ -319,6 +353,18 @@ static void cs_step_(char **tok, int n) {
 			thrown = 1;
 		}
 		tr_printf("EBSET %s thrown=%d code=%d now=%d\n", w, thrown, err_get_code() != RLC_OK, eb_param_get());
+	} else if (!strcmp(it, "FBSET")) {
+		/* a selection of the binary field alone (the reduction polynomial) */
+		int thrown = 0;
+		const char *w = n > 1 ? tok[1] : "any";
+		RLC_TRY {
+			if (!strcmp(w, "NIST_283")) fb_param_set(NIST_283);
+			else if (!strcmp(w, "SQRT_283")) fb_param_set(SQRT_283);
+			else fb_param_set_any();
+		} RLC_CATCH_ANY {
+			thrown = 1;
+		}
+		{ int ra_, rb_, rc_; fb_poly_get_rdc(&ra_, &rb_, &rc_); tr_printf("FBSET %s thrown=%d code=%d now=%d,%d,%d\n", w, thrown, err_get_code() != RLC_OK, ra_, rb_, rc_); }
 	} else if (!strcmp(it, "REINIT")) {
 		ctx_t *c = core_get();
 		core_clean();
@@ -582,6 +628,7 @@ static void cs_step_(char **tok, int n) {
 		if (strchr(ly, '1')) cs_probe_l1();
 		if (strchr(ly, '2')) cs_probe_l2();
 		if (strchr(ly, '3')) cs_probe_l3();
+		if (strchr(ly, '4')) cs_probe_l4();
 	} else {
 		tr_printf("UNKNOWN %s\n", it);
 	}
